@@ -2,7 +2,7 @@
 """Regenerates MANIFEST.json from the table below (run after adding a property check)."""
 import json, subprocess
 
-HOOK_COMMITS = ["8d32335"]
+HOOK_COMMITS = ["8d32335", "db539f0"]
 
 # id -> (technique, level text, level note, design ref)
 CHECKS = {
@@ -18,6 +18,18 @@ CHECKS = {
  "C08": ("proptest tape-driven arbitrary-text generation (syntax soup, hazard Unicode, long lines) with totality/shape invariants, plus planted single malformed lines in generated well-formed scripts with error-kind/line oracle",
          "Generated-input search: parse_text must return on every text and, when it accepts, yield one instruction per line with 1-based numbers; each documented malformation planted at a random line must be rejected with the matching kind and line, and the script must parse once that line is blanked. Exploration level.",
          "Own line splitter; blank asserted only for space/tab/# lines; '!' lines excluded from the shape check.", "DESIGN.md section 3 C08"),
+ "C04": ("proptest tape-driven generation of well-nested structured programs (AST) rendered with random keyword spellings; model-based oracle: tree-walking reference interpreter; emit trace + final variables compared",
+         "Model-based generated search over nesting depth, zero-iteration loops, empty bodies, re-entered blocks, every alias/canonical spelling of each keyword and all four condition forms. Exploration level; fuel and nesting-limit hooks make non-termination a deterministic mismatch; shrinking yields small programs.",
+         "Trusts the reference interpreter (flow.rs) and the shared tick/tock automata; spelling table cross-checked against the live registry at start-up.", "DESIGN.md section 3 C04"),
+ "C05": ("proptest tape-driven generation of programs with function definitions/calls (statement, output-assigning, condition position, recursion, early returns); model-based oracle: reference interpreter with call frames and scoped isolation",
+         "Model-based generated search; the corners the property leaves open are detected dynamically by the model (taint) and such programs are discarded and counted. Exploration level.",
+         "Trusts the reference interpreter's call semantics as transcribed from the statement; discards are reported per reason in the evidence.", "DESIGN.md section 3 C05"),
+ "C09": ("exhaustive grid (feature value x wrapper x position x predicate) plus proptest-generated compositions; differential/metamorphic oracle: wrapped invocation vs direct invocation of the same command",
+         "Differential generated search: the argument vector received under not/if/elseif/while/alias must equal the direct call's, and the branch/output must follow the direct output. Known value classes (KNOWN_FINDINGS.txt, F11) are excluded by predicate, counted, and re-confirmed by probes; everything else is strict. Exploration level.",
+         "Direct call is the reference (its own correctness is C02); class predicates listed in DESIGN.md C09.", "DESIGN.md section 3 C09"),
+ "C15": ("exhaustive enumeration of all set/remove histories up to length 4 (quick) / 5 (thorough) over a 3-name universe with full-universe probes after every step; proptest-generated longer API histories and script-level histories; model-based oracle (name table + alias table)",
+         "Exhaustive within the bound, random beyond; after every step return value, get/exists/get_for_use over the universe, get_all_command_names and the no-dangling-alias invariant are compared with the model; script-level alias/unalias/remove_command/is_command_defined/fn/invocation sequences compared with the same model seeded from the live registry. Exploration level with exhaustive sub-bound.",
+         "Trusts the 40-line registry model; unalias modelled from its help text.", "DESIGN.md section 3 C15"),
  "C01": ("proptest tape-driven generation of instructions + documented-syntax renderer; round-trip oracle render->parse_text",
          "Generated-input search: random instructions over hazard-biased arbitrary Unicode are rendered with random documented-syntax choices and must parse back to exactly the generated instruction (and n lines to n instructions with line numbers). Failures shrink to a minimal tape and replay file. Right level because the property is a round trip over an unbounded input space; absence is not proved.",
          "Trusts the 80-line renderer as a faithful reading of the README syntax; names restricted as listed in DESIGN.md C01.", "DESIGN.md section 3 C01"),
